@@ -13,6 +13,18 @@ var metaLexemes = []string{"k", "key", "Am", "txt", "a b", "x;y", "120", "v w  x
 
 var freeSymbols = []string{"m", "dim", "maj7", "aug", "sus4", "M7", "m7b5", "add9", "mM7", "m7", "o", "ø7", "(b9)", "+", "-5", "maj7#11", "mb5", "sus", "Δ", "x]y", "{q", "a,b", "}"}
 
+// bareSymbols are the free symbols that lex as one SYMBOL without a leading underscore.
+var bareSymbols = func() []string {
+	var out []string
+	for _, s := range freeSymbols {
+		tr := grammar.Tokenize([]byte("C" + s + "[1]"))
+		if !tr.LexErr && len(tr.Tokens) == 5 && tr.Tokens[1].Kind == "SYMBOL" && tr.Tokens[1].Val == s {
+			out = append(out, s)
+		}
+	}
+	return out
+}()
+
 var underscoreSymbols = []string{"7", "9", "6", "7sus4", "13", "m7", "b5", "C", "R", "#x", "{z", "]q", "1,2", "♯11", "dim", "7(b9)", "69"}
 
 // randomChordTokens generates the token list of n chords/rests.
@@ -48,7 +60,7 @@ func randomChordTokens(r *rand.Rand, n int) []grammar.Token {
 			head()
 			switch r.Intn(4) {
 			case 0:
-				add("SYMBOL", freeSymbols[r.Intn(len(freeSymbols))])
+				add("SYMBOL", bareSymbols[r.Intn(len(bareSymbols))])
 			case 1:
 				add("UNDERSCORE", "_")
 				add("SYMBOL", underscoreSymbols[r.Intn(len(underscoreSymbols))])
@@ -107,8 +119,56 @@ func sameTokens(a []grammar.Token, b []grammar.Token) bool {
 
 // joinTokens renders the tokens; with trivia it inserts white space and
 // comments at random token boundaries and keeps only what the reference
-// tokenizer reads back as exactly the same token list.
+// tokenizer reads back as exactly the same token list. Chords are rendered one
+// by one (the lexer is back in normal mode after every `]` or `}`), so the cost
+// stays linear in the length of the text.
 func joinTokens(toks []grammar.Token, r *rand.Rand, trivia bool) string {
+	chordEnd := func(i int) bool {
+		switch toks[i].Kind {
+		case "RCBRA":
+			return true
+		case "RBRA":
+			return i+1 >= len(toks) || toks[i+1].Kind != "LCBRA"
+		}
+		return i == len(toks)-1
+	}
+	render := func(r *rand.Rand, trivia bool) string {
+		var b strings.Builder
+		start := 0
+		for i := range toks {
+			if !chordEnd(i) {
+				continue
+			}
+			if start > 0 {
+				sep := " "
+				if trivia && r != nil {
+					sep = triviaChoices[r.Intn(len(triviaChoices))]
+				}
+				b.WriteString(sep)
+			}
+			b.WriteString(joinChord(toks[start:i+1], r, trivia))
+			start = i + 1
+		}
+		return b.String()
+	}
+	s := render(r, trivia)
+	if !sameTokens(grammar.Tokenize([]byte(s)).Tokens, toks) {
+		// a boundary without white space glued two tokens together: fall back to blanks
+		s = render(nil, false)
+	}
+	if trivia && r != nil {
+		// leading and trailing trivia (a comment at the very end with and without newline)
+		lead := []string{"", " ", "\n", ";lead\n", "\t\t"}[r.Intn(5)]
+		trail := []string{"", " ", "\n", " ;end\n", ";end", "\n\n"}[r.Intn(6)]
+		if cand := lead + s + trail; sameTokens(grammar.Tokenize([]byte(cand)).Tokens, toks) {
+			s = cand
+		}
+	}
+	return s
+}
+
+// joinChord renders the tokens of one chord or rest.
+func joinChord(toks []grammar.Token, r *rand.Rand, trivia bool) string {
 	var b strings.Builder
 	inMeta := false
 	for i, t := range toks {
@@ -146,16 +206,7 @@ func joinTokens(toks []grammar.Token, r *rand.Rand, trivia bool) string {
 			inMeta = false
 		}
 	}
-	s := b.String()
-	if trivia && r != nil {
-		// leading and trailing trivia (a comment at the very end with and without newline)
-		lead := []string{"", " ", "\n", ";lead\n", "\t\t"}[r.Intn(5)]
-		trail := []string{"", " ", "\n", " ;end\n", ";end", "\n\n"}[r.Intn(6)]
-		if cand := lead + s + trail; sameTokens(grammar.Tokenize([]byte(cand)).Tokens, toks) {
-			s = cand
-		}
-	}
-	return s
+	return b.String()
 }
 
 // prefixTokens reports whether text tokenises to exactly the given tokens
